@@ -1,4 +1,5 @@
 import RlModel.Lemmas.Scan
+import RlModel.Lemmas.Heap
 /-!
 # C12 — ORDER BY, LIMIT and OFFSET are honoured on every storage layout
 
@@ -127,6 +128,65 @@ theorem merge_iter_sorted (ks : List OrdKey) (ls : List (List Row)) (hs : ∀ l 
 
 example : mergeK (keyCmp [⟨0, false⟩]) 6 [[[.i32 1], [.i32 2], [.i32 9]], [[.i32 5], [.i32 6], [.i32 7]]]
     = [[.i32 1], [.i32 2], [.i32 5], [.i32 6], [.i32 7], [.i32 9]] := by decide
+
+/-- The REAL MergeIterator: array-embedded binary min-heap over the child iterators with the
+code's sift-up / sift-down / pop and chunk-wise refills (`Model/Heap.lean mergeHeap`). For any
+number of child iterators, any chunking, any duplicates: sorted children give a sorted output that
+is a permutation of all rows. Proof: heap invariant (`siftUp_heap`, `siftDown_heap`) by induction. -/
+theorem merge_heap_sorted (ks : List OrdKey) (streams : List (List (List Row)))
+    (hs : ∀ s ∈ streams, SortedBy (keyCmp ks) s.flatten) :
+    SortedBy (keyCmp ks) (mergeHeap (keyCmp ks) streams)
+      ∧ (mergeHeap (keyCmp ks) streams).Perm (streams.map List.flatten).flatten := by
+  have L := keyCmp_laws ks
+  have h0 : MergeInv (keyCmp ks) ([] : List (MEntry Row)) :=
+    ⟨by intro p c a b _ ha; simp at ha, by intro e he; simp at he⟩
+  obtain ⟨hinv, hperm⟩ := mergeInit_spec L streams 0 [] h0 hs
+  have hperm' : (remaining (mergeInit (keyCmp ks) 0 streams [])).Perm (streams.map List.flatten).flatten := by
+    simpa [remaining] using hperm
+  have hlen : (remaining (mergeInit (keyCmp ks) 0 streams [])).length ≤ (streams.map fun s => s.flatten.length).sum := by
+    rw [hperm'.length_eq, List.length_flatten, List.map_map]
+    exact Nat.le_refl _
+  obtain ⟨h1, h2⟩ := mergeHeapLoop_spec L _ _ hinv hlen
+  exact ⟨h1, h2.trans hperm'⟩
+
+example : ∀ s ∈ ([[[[.i32 1], [.i32 2]], [[.i32 9]]], [[[.i32 5], [.i32 5], [.i32 7]]], []] : List (List (List Row))),
+    SortedBy (keyCmp [⟨0, false⟩]) s.flatten := by decide
+
+/-- The REAL top-N executor (bounded binary max-heap, `into_sorted_vec`): whenever the heap
+allocation does not overflow, its output is rows m+1..m+n of SOME key-sorted permutation of the
+input (which rows of a tie group survive is the heap's business - exactly what ORDER BY + LIMIT
+promises). The abstract `topn_eq_order_limit` is the instance with the stable sort. -/
+theorem topn_heap_eq_order_limit (ks : List OrdKey) (n m : Nat) (rows : List Row) (hcap : (m + n) * 24 ≤ isizeMax) :
+    ∃ sorted : List Row, sorted.Perm rows ∧ SortedBy (keyCmp ks) sorted ∧
+      topnHeapExec (keyCmp ks) (some n) m rows = .ok (limitRows (some n) m sorted) := by
+  have L := keyCmp_laws ks
+  have hc : ¬ ((m + n) * 24 > isizeMax) := by omega
+  obtain ⟨D, inv⟩ := topnHeapState_inv L (m + n) rows
+  obtain ⟨hdp, hds⟩ := heapDrain_spec L _ (topnHeapState (keyCmp ks) (m + n) rows) inv.heap (Nat.le_refl _)
+  refine ⟨(heapDrain (rcmp (keyCmp ks)) (topnHeapState (keyCmp ks) (m + n) rows).length (topnHeapState (keyCmp ks) (m + n) rows)).reverse ++ sortL (keyCmp ks) D, ?_, ?_, ?_⟩
+  · exact (List.Perm.append ((List.reverse_perm _).trans hdp) (sortL_perm _ D)).trans inv.perm
+  · unfold SortedBy
+    rw [List.pairwise_append]
+    refine ⟨hds, sortL_sorted _ L D, ?_⟩
+    intro a ha b hb
+    exact inv.le a (hdp.mem_iff.1 (List.mem_reverse.1 ha)) b ((sortL_perm _ D).mem_iff.1 hb)
+  · have hlenS : (heapDrain (rcmp (keyCmp ks)) (topnHeapState (keyCmp ks) (m + n) rows).length
+        (topnHeapState (keyCmp ks) (m + n) rows)).reverse.length = (topnHeapState (keyCmp ks) (m + n) rows).length := by
+      rw [List.length_reverse, hdp.length_eq]
+    simp only [topnHeapExec, Option.getD_some, hc, if_false, limitRows]
+    rw [show (fun a b => keyCmp ks b a) = rcmp (keyCmp ks) from rfl]
+    congr 1
+    generalize (heapDrain (rcmp (keyCmp ks)) (topnHeapState (keyCmp ks) (m + n) rows).length
+        (topnHeapState (keyCmp ks) (m + n) rows)).reverse = S at hlenS ⊢
+    by_cases hD : D = []
+    · subst hD; simp [sortL]
+    · have hfull := inv.full hD
+      rw [List.drop_append, List.take_append]
+      have e1 : m - S.length = 0 := by omega
+      have e2 : n - (List.drop m S).length = 0 := by rw [List.length_drop]; omega
+      rw [e1, e2]; simp
+
+example : (1 + 2) * 24 ≤ isizeMax := by decide
 
 /-- The executor's actual scan (`ScanOptions::default()`: row-sets concatenated in snapshot
 order) is key-sorted iff every row-set is sorted AND the row-sets do not overlap and come in
